@@ -906,3 +906,61 @@ func c20r9(rc *core.RC) {
 		rc.Unknown("decoder/float-to-integer", token.NoPos, "found %d conversions of a float to an integer type in the decoder package (confirmed: castInt, castUint)", n)
 	}
 }
+
+// ---- C20.R10 the path text becomes runes by the language conversion ----
+
+// The path builder works on []rune so that member names keep their characters. The text becomes runes through
+// []rune(s), which decodes UTF-8. Widening the bytes of the string one by one (rune(s[i])) is the same for ASCII and
+// wrong for every other member name: `$.名前` would look for a member whose key is the Latin-1 reading of its bytes.
+func c20r10(rc *core.RC) {
+	p := rc.P
+	n := 0
+	for _, fd := range p.Funcs("decoder") {
+		if fd.Body == nil || p.FileBase(fd.Pos()) != "path.go" {
+			continue
+		}
+		info := p.Info(fd)
+		fn := p.FuncName(fd)
+		k := 0
+		ast.Inspect(fd.Body, func(m ast.Node) bool {
+			call, ok := m.(*ast.CallExpr)
+			if !ok {
+				return true
+			}
+			// (a) the argument of the builder's entry
+			if strings.HasSuffix(core.CalleeName(info, call), "PathBuilder.Build") && len(call.Args) == 1 {
+				n++
+				rc.Touch(fn)
+				key := fn + "/path-text decoded-as-UTF-8"
+				good := false
+				why := core.Src(p.Fset, call.Args[0])
+				if conv, isCall := core.Unparen(call.Args[0]).(*ast.CallExpr); isCall && len(conv.Args) == 1 {
+					if tv, isT := info.Types[conv.Fun]; isT && tv.IsType() && tv.Type.String() == "[]rune" {
+						if at := info.TypeOf(conv.Args[0]); at != nil {
+							if b, isB := at.Underlying().(*types.Basic); isB && b.Info()&types.IsString != 0 {
+								good = true
+							}
+						}
+					}
+				}
+				rc.Check(good, key, call.Pos(), "the builder is given []rune(<string>), the conversion that decodes UTF-8 (found: %s): runes made from single bytes turn every non-ASCII member name into another name", why)
+				return true
+			}
+			// (b) no byte of a string is widened to a rune in path.go
+			if tv, isT := info.Types[call.Fun]; isT && tv.IsType() && tv.Type.String() == "rune" && len(call.Args) == 1 {
+				if ix, isIx := core.Unparen(call.Args[0]).(*ast.IndexExpr); isIx {
+					if at := info.TypeOf(ix.X); at != nil {
+						if b, isB := at.Underlying().(*types.Basic); isB && b.Info()&types.IsString != 0 {
+							k++
+							rc.Bad(fmt.Sprintf("%s/byte-widened-to-rune#%d", fn, k), call.Pos(), "%s widens one byte of a string to a rune: for a multi-byte character that is not its code point", core.Src(p.Fset, call))
+						}
+					}
+				}
+			}
+			return true
+		})
+	}
+	if n < 1 {
+		rc.Unknown("decoder/path-entry", token.NoPos, "no call of PathBuilder.Build found in path.go")
+	}
+}
